@@ -887,4 +887,369 @@ example : exportSequence {} false false 10 [⟨some (.timeInterval 1 2), []⟩, 
 example : exportSequence { kw := { labelFn := some (fun _ => .error .key) } } true true 10
     [⟨none, []⟩, ⟨some (.timeInterval 1 2), [⟨termFromKey "k", "v"⟩]⟩] = .error .key := by decide +kernel
 
+/-! ## the round trip: export after import -/
+
+/-- import options that turn a label into (at most) one tag whose value is the label -/
+structure SingleTagImport (io : LabelOpts) : Prop where
+  noFn : io.tagFn = none
+  noTagMapping : io.tagMapping = none
+
+/-- export options that give value-only labels -/
+structure ValueOnlyExport (eo : TagsOpts) : Prop where
+  noSeqFn : eo.seqLabelFn = none
+  noSelect : eo.selectByKey = none
+  noFn : eo.kw.labelFn = none
+  noMapping : eo.kw.labelMapping = none
+  valueOnly : eo.kw.valueOnly = some true
+
+/-- labels survive: whatever term, key, mappings or fallback the import uses and whatever index
+    or separator the export uses, provided both sides agree on the empty label -/
+theorem C10_roundtrip_label (io : LabelOpts) (eo : TagsOpts) (hi : SingleTagImport io) (he : ValueOnlyExport eo)
+    (hm : io.emptyLabels = [eo.emptyLabel]) (label : String) :
+    ∃ tags, labelToTags io label = .ok tags ∧ labelFromTags eo tags = .ok label := by
+  by_cases hl : label ∈ io.emptyLabels
+  · refine ⟨[], C10_to_tags_empty io label hl, ?_⟩
+    rw [C10_from_tags_empty eo he.noSeqFn]
+    rw [hm] at hl; simp at hl; rw [hl]
+  · have hfn : fnRung io label = none := by simp [fnRung, hi.noFn]
+    have htm : hit io.tagMapping label = none := by simp [hit, hi.noTagMapping]
+    obtain ⟨t, ht⟩ := C10_to_tags_value_is_label io label hl hfn htm
+    refine ⟨_, ht, ?_⟩
+    have hone : labelFromTag eo.kw tagSep ⟨t, label⟩ = .ok label := by
+      simp [labelFromTag, he.noFn, he.noMapping, he.valueOnly]
+    cases hidx : eo.index with
+    | some i =>
+      rw [C10_from_tags_index eo _ i he.noSeqFn (by simp) he.noSelect hidx]
+      have : (i % ((([⟨t, label⟩] : List Tag).length : Nat) : Int)).toNat = 0 := by simp
+      simp only [this]; exact hone
+    | none =>
+      have := (C10_from_tags_join eo [⟨t, label⟩] he.noSeqFn (by simp) he.noSelect hidx).1 [label]
+        (by simp [hone])
+      rw [this]; rfl
+
+theorem bounds_boundingBox (s l e h : Rat) (hse : s ≤ e) (hlh : l ≤ h) :
+    (Geom.boundingBox s l e h).bounds = some ⟨s, l, e, h⟩ := by
+  simp only [Geom.bounds, Geom.boundPts, ptsBounds, List.foldl]
+  have h1 : min s e = s := by grind
+  have h2 : max s e = e := by grind
+  have h3 : min l h = l := by grind
+  have h4 : max l h = h := by grind
+  simp [h1, h2, h3, h4]
+
+/-- what the round trip makes of a segment given in seconds: label, onset and offset are
+    reproduced; the sample indices are `int(seconds · samplerate)` -/
+def canonSegment (sr : Rat) (s : Segment) : Segment :=
+  ⟨s.label, s.onsetS, s.offsetS, s.onsetS.map (timeToSample sr), s.offsetS.map (timeToSample sr)⟩
+
+/-- a segment the importer accepts from its seconds -/
+def SecondsValid (s : Segment) : Prop :=
+  ∃ a b, s.onsetS = some a ∧ s.offsetS = some b ∧ 0 ≤ a ∧ a ≤ b
+
+theorem roundtrip_segment_aux (io : LabelOpts) (eo : TagsOpts) (hi : SingleTagImport io) (he : ValueOnlyExport eo)
+    (hm : io.emptyLabels = [eo.emptyLabel]) (adjust cast : Bool) (r : Rec) (hte : r.te = 1 ∨ adjust = false)
+    (s : Segment) (hs : SecondsValid s) :
+    ∃ ann, importSegment io adjust r s = .ok ann ∧
+      exportSegment eo cast r.samplerate ann = .ok (canonSegment r.samplerate s) := by
+  obtain ⟨a, b, hsa, hsb, h0, hab⟩ := hs
+  obtain ⟨tags, htags, hlab⟩ := C10_roundtrip_label io eo hi he hm s.label
+  have hseg : segTimes s.onsetS s.offsetS (s.onsetSample.map ratOfInt) (s.offsetSample.map ratOfInt)
+      r.samplerate r.te adjust = some (a, b) := by
+    rw [hsa, hsb]
+    rcases hte with h | h
+    · rw [h]; exact C10_import_no_expansion a b _ _ _ adjust
+    · subst h; simp [segTimes, fileTime, adjTime]
+  refine ⟨⟨some (.timeInterval a b), tags⟩, ?_, ?_⟩
+  · rw [C10_import_segment_geometry]
+    exact ⟨a, b, hseg, h0, hab, rfl, htags⟩
+  · rw [C10_export_interval_identity eo cast r.samplerate _ a b s.label rfl hlab]
+    simp [canonSegment, hsa, hsb]
+
+/-- **round trip, segments** (`te = 1` or no adjustment, value-only labels): onset, offset and
+    label come back exactly, sample indices are recomputed from the seconds -/
+theorem C10_roundtrip_segment (io : LabelOpts) (eo : TagsOpts) (hi : SingleTagImport io) (he : ValueOnlyExport eo)
+    (hm : io.emptyLabels = [eo.emptyLabel]) (adjust cast : Bool) (r : Rec) (hte : r.te = 1 ∨ adjust = false)
+    (s : Segment) (hs : SecondsValid s) :
+    roundtripSegment io eo adjust cast r s = .ok (canonSegment r.samplerate s) := by
+  obtain ⟨ann, h1, h2⟩ := roundtrip_segment_aux io eo hi he hm adjust cast r hte s hs
+  simp [roundtripSegment, h1, h2, bind, Except.bind]
+
+/-- **round trip, segments given in samples only** (`te = 1`, positive sample rate): the sample
+    indices come back exactly, the seconds are `sample / samplerate` -/
+theorem C10_roundtrip_segment_samples (io : LabelOpts) (eo : TagsOpts) (hi : SingleTagImport io)
+    (he : ValueOnlyExport eo) (hm : io.emptyLabels = [eo.emptyLabel]) (adjust cast : Bool) (r : Rec)
+    (hte : r.te = 1) (hsr : 0 < r.samplerate) (label : String) (n m : Int) (h0 : 0 ≤ n) (hnm : n ≤ m) :
+    roundtripSegment io eo adjust cast r ⟨label, none, none, some n, some m⟩ =
+      .ok ⟨label, some ((n : Rat) / r.samplerate), some ((m : Rat) / r.samplerate), some n, some m⟩ := by
+  obtain ⟨tags, htags, hlab⟩ := C10_roundtrip_label io eo hi he hm label
+  have hne : r.samplerate ≠ 0 := by grind
+  have hinv : 0 < r.samplerate⁻¹ := Rat.inv_pos.mpr hsr
+  have hseg : segTimes none none (some (ratOfInt n)) (some (ratOfInt m)) r.samplerate r.te adjust =
+      some ((n : Rat) / r.samplerate, (m : Rat) / r.samplerate) := by
+    rw [hte]; simp only [segTimes, fileTime, adjTime, ratOfInt]
+    simp; constructor <;> grind
+  have hn0 : (0 : Rat) ≤ (n : Rat) / r.samplerate := by
+    rw [Rat.div_def]; exact Rat.mul_nonneg (by exact_mod_cast h0) (Rat.le_of_lt hinv)
+  have hle : (n : Rat) / r.samplerate ≤ (m : Rat) / r.samplerate := by
+    rw [Rat.div_def, Rat.div_def]
+    exact Rat.mul_le_mul_of_nonneg_right (by exact_mod_cast hnm) (Rat.le_of_lt hinv)
+  have himp : importSegment io adjust r ⟨label, none, none, some n, some m⟩ =
+      .ok ⟨some (.timeInterval ((n : Rat) / r.samplerate) ((m : Rat) / r.samplerate)), tags⟩ := by
+    rw [C10_import_segment_geometry]
+    exact ⟨_, _, hseg, hn0, hle, rfl, htags⟩
+  have hsn : timeToSample r.samplerate ((n : Rat) / r.samplerate) = n := by
+    have : (n : Rat) / r.samplerate * r.samplerate = (n : Rat) := by grind
+    rw [timeToSample, this]; exact pyInt_intCast n
+  have hsm : timeToSample r.samplerate ((m : Rat) / r.samplerate) = m := by
+    have : (m : Rat) / r.samplerate * r.samplerate = (m : Rat) := by grind
+    rw [timeToSample, this]; exact pyInt_intCast m
+  simp only [roundtripSegment, himp, bind, Except.bind]
+  rw [C10_export_interval_identity eo cast r.samplerate _ _ _ label rfl hlab, hsn, hsm]
+
+/-- a crowsetta box the round trip reproduces: crowsetta's own invariants, the upper frequency
+    within `MAX_FREQUENCY` and the Nyquist frequency -/
+structure BoxInDomain (r : Rec) (b : BBox) : Prop where
+  onset_nonneg : 0 ≤ b.onset
+  onset_lt : b.onset < b.offset
+  low_nonneg : 0 ≤ b.lowFreq
+  low_lt : b.lowFreq < b.highFreq
+  high_le_max : b.highFreq ≤ MAXF
+  high_le_nyquist : b.highFreq ≤ r.samplerate / 2
+
+theorem roundtrip_bbox_aux (io : LabelOpts) (eo : TagsOpts) (hi : SingleTagImport io) (he : ValueOnlyExport eo)
+    (hm : io.emptyLabels = [eo.emptyLabel]) (adjust cast raiseTime : Bool) (r : Rec)
+    (hte : r.te = 1 ∨ adjust = false) (b : BBox) (hb : BoxInDomain r b) :
+    ∃ ann, importBBox io adjust r b = .ok ann ∧ exportBBox eo cast raiseTime r.samplerate ann = .ok b := by
+  obtain ⟨tags, htags, hlab⟩ := C10_roundtrip_label io eo hi he hm b.label
+  obtain ⟨h0, h1, h2, h3, h4, h5⟩ := hb
+  have hc : boxCoords b.onset b.offset b.lowFreq b.highFreq r.te adjust =
+      (b.onset, b.lowFreq, b.offset, b.highFreq) := by
+    rcases hte with h | h
+    · rw [h]; simp [boxCoords, adjTime, adjFreq]
+    · subst h; simp [boxCoords, adjTime, adjFreq]
+  have hmk : mkBox b.onset b.lowFreq b.offset b.highFreq =
+      .ok (.boundingBox b.onset b.lowFreq b.offset b.highFreq) := by
+    unfold mkBox
+    have c1 : ¬ (b.onset < 0 ∨ b.lowFreq < 0 ∨ b.lowFreq > MAXF ∨ b.offset < 0 ∨ b.highFreq < 0 ∨ b.highFreq > MAXF) := by
+      grind
+    have c2 : ¬ b.onset > b.offset := by grind
+    have c3 : ¬ b.lowFreq > b.highFreq := by grind
+    simp only [c1, c2, c3, if_false]
+  refine ⟨⟨some (.boundingBox b.onset b.lowFreq b.offset b.highFreq), tags⟩, ?_, ?_⟩
+  · simp only [importBBox, hc, hmk, htags, bind, Except.bind, pure, Except.pure]
+  · have hbd := bounds_boundingBox b.onset b.lowFreq b.offset b.highFreq (by grind) (by grind)
+    have hmin : min b.highFreq (r.samplerate / 2) = b.highFreq := by grind
+    have hv : ¬ (b.onset < 0 ∨ ¬ b.onset < b.offset ∨ b.offset < 0 ∨ b.lowFreq < 0 ∨ ¬ b.lowFreq < b.highFreq ∨
+        b.highFreq < 0) := by grind
+    simp only [exportBBox, geomToBounds, isBoxGeom, isTimeGeom, hbd, hlab, mkBBox, bind, Except.bind]
+    simp only [Bool.not_true, Bool.false_eq_true, false_and, if_false, hmin, hv]
+
+/-- **round trip, boxes** (`te = 1` or no adjustment, value-only labels, `high ≤ Nyquist`):
+    export after import is the identity, for every setting of the cast / raise switches -/
+theorem C10_roundtrip_bbox (io : LabelOpts) (eo : TagsOpts) (hi : SingleTagImport io) (he : ValueOnlyExport eo)
+    (hm : io.emptyLabels = [eo.emptyLabel]) (adjust cast raiseTime : Bool) (r : Rec)
+    (hte : r.te = 1 ∨ adjust = false) (b : BBox) (hb : BoxInDomain r b) :
+    roundtripBBox io eo adjust cast raiseTime r b = .ok b := by
+  obtain ⟨ann, h1, h2⟩ := roundtrip_bbox_aux io eo hi he hm adjust cast raiseTime r hte b hb
+  simp [roundtripBBox, h1, h2, bind, Except.bind]
+
+/-- **round trip, sequences**: one segment per segment, in order, each reproduced; nothing is
+    dropped under either error policy -/
+theorem C10_roundtrip_sequence (io : LabelOpts) (eo : TagsOpts) (hi : SingleTagImport io) (he : ValueOnlyExport eo)
+    (hm : io.emptyLabels = [eo.emptyLabel]) (adjust cast ignore : Bool) (r : Rec)
+    (hte : r.te = 1 ∨ adjust = false) (segs : List Segment) (hs : ∀ s ∈ segs, SecondsValid s) :
+    roundtripSequence io eo adjust cast ignore r segs = .ok (segs.map (canonSegment r.samplerate)) := by
+  obtain ⟨anns, h1, h2⟩ := mapM_collect_roundtrip (importSegment io adjust r)
+    (exportSegment eo cast r.samplerate) (canonSegment r.samplerate) ignore segs
+    (fun s h => roundtrip_segment_aux io eo hi he hm adjust cast r hte s (hs s h))
+  simp [roundtripSequence, importSequence, exportSequence, h1, h2, bind, Except.bind]
+
+/-- **round trip, annotations with boxes**: the annotation comes back unchanged -/
+theorem C10_roundtrip_annotation_bbox (io : LabelOpts) (eo : TagsOpts) (hi : SingleTagImport io)
+    (he : ValueOnlyExport eo) (hm : io.emptyLabels = [eo.emptyLabel]) (adjust ignore cast raiseTime : Bool)
+    (r : Rec) (hte : r.te = 1 ∨ adjust = false) (boxes : List BBox) (hb : ∀ b ∈ boxes, BoxInDomain r b) :
+    roundtripAnnotation io eo .bbox adjust ignore cast raiseTime r ⟨some r.path, boxes, []⟩ =
+      .ok ⟨some r.path, boxes, []⟩ := by
+  obtain ⟨anns, h1, h2⟩ := mapM_collect_roundtrip (importBBox io adjust r)
+    (exportBBox eo cast raiseTime r.samplerate) id ignore boxes
+    (fun b h => roundtrip_bbox_aux io eo hi he hm adjust cast raiseTime r hte b (hb b h))
+  simp [roundtripAnnotation, importAnnotation, importSeqs, exportAnnotation, h1, h2, bind, Except.bind,
+    pure, Except.pure]
+
+/-- **round trip, annotations with a sequence** -/
+theorem C10_roundtrip_annotation_seq (io : LabelOpts) (eo : TagsOpts) (hi : SingleTagImport io)
+    (he : ValueOnlyExport eo) (hm : io.emptyLabels = [eo.emptyLabel]) (adjust ignore cast raiseTime : Bool)
+    (r : Rec) (hte : r.te = 1 ∨ adjust = false) (segs : List Segment) (hs : ∀ s ∈ segs, SecondsValid s) :
+    roundtripAnnotation io eo .seq adjust ignore cast raiseTime r ⟨some r.path, [], [segs]⟩ =
+      .ok ⟨some r.path, [], [segs.map (canonSegment r.samplerate)]⟩ := by
+  obtain ⟨anns, h1, h2⟩ := mapM_collect_roundtrip (importSegment io adjust r)
+    (exportSegment eo cast r.samplerate) (canonSegment r.samplerate) ignore segs
+    (fun s h => roundtrip_segment_aux io eo hi he hm adjust cast r hte s (hs s h))
+  have h1' : importSequence io adjust r segs = .ok anns := h1
+  simp [roundtripAnnotation, importAnnotation, importSeqs, exportAnnotation, exportSequence, h1', h2, bind,
+    Except.bind, pure, Except.pure]
+
+/-- the monitor the harness evaluates on the implementation's own output is implied by the round
+    trip: both kinds of segments satisfy `rtSegmentOk` -/
+theorem C10_roundtrip_holds_segment (io : LabelOpts) (eo : TagsOpts) (hi : SingleTagImport io)
+    (he : ValueOnlyExport eo) (hm : io.emptyLabels = [eo.emptyLabel]) (adjust cast : Bool) (r : Rec) :
+    (∀ s y, (r.te = 1 ∨ adjust = false) → SecondsValid s → roundtripSegment io eo adjust cast r s = .ok y →
+        rtSegmentOk r.samplerate s y = true) ∧
+    (∀ label n m y, r.te = 1 → 0 < r.samplerate → 0 ≤ n → n ≤ m →
+        roundtripSegment io eo adjust cast r ⟨label, none, none, some n, some m⟩ = .ok y →
+        rtSegmentOk r.samplerate ⟨label, none, none, some n, some m⟩ y = true) := by
+  constructor
+  · intro s y hte hs hy
+    rw [C10_roundtrip_segment io eo hi he hm adjust cast r hte s hs] at hy
+    cases hy
+    obtain ⟨a, b, hsa, hsb, _, _⟩ := hs
+    simp [rtSegmentOk, rtEndOk, canonSegment, hsa, hsb]
+  · intro label n m y hte hsr h0 hnm hy
+    rw [C10_roundtrip_segment_samples io eo hi he hm adjust cast r hte hsr label n m h0 hnm] at hy
+    cases hy
+    simp [rtSegmentOk, rtEndOk, ratOfInt]
+
+theorem rtSeqOk_canon (sr : Rat) (segs : List Segment) (hs : ∀ s ∈ segs, SecondsValid s) :
+    rtSeqOk sr segs (segs.map (canonSegment sr)) = true := by
+  induction segs with
+  | nil => rfl
+  | cons s ss ih =>
+    obtain ⟨a, b, hsa, hsb, _, _⟩ := hs s (by simp)
+    simp only [List.map_cons, rtSeqOk, Bool.and_eq_true]
+    exact ⟨by simp [rtSegmentOk, rtEndOk, canonSegment, hsa, hsb], ih (fun x hx => hs x (by simp [hx]))⟩
+
+/-- … and so do sequences (lengths, order, every segment) and annotations -/
+theorem C10_roundtrip_holds_sequence (io : LabelOpts) (eo : TagsOpts) (hi : SingleTagImport io)
+    (he : ValueOnlyExport eo) (hm : io.emptyLabels = [eo.emptyLabel]) (adjust cast ignore raiseTime : Bool) (r : Rec)
+    (hte : r.te = 1 ∨ adjust = false) (segs : List Segment) (hs : ∀ s ∈ segs, SecondsValid s) :
+    (∀ ys, roundtripSequence io eo adjust cast ignore r segs = .ok ys → rtSeqOk r.samplerate segs ys = true) ∧
+    (∀ y, roundtripAnnotation io eo .seq adjust ignore cast raiseTime r ⟨some r.path, [], [segs]⟩ = .ok y →
+        rtAnnOk r.samplerate ⟨some r.path, [], [segs]⟩ y = true) ∧
+    (∀ boxes y, (∀ b ∈ boxes, BoxInDomain r b) →
+        roundtripAnnotation io eo .bbox adjust ignore cast raiseTime r ⟨some r.path, boxes, []⟩ = .ok y →
+        rtAnnOk r.samplerate ⟨some r.path, boxes, []⟩ y = true) := by
+  refine ⟨?_, ?_, ?_⟩
+  · intro ys hy
+    rw [C10_roundtrip_sequence io eo hi he hm adjust cast ignore r hte segs hs] at hy
+    cases hy; exact rtSeqOk_canon _ segs hs
+  · intro y hy
+    rw [C10_roundtrip_annotation_seq io eo hi he hm adjust ignore cast raiseTime r hte segs hs] at hy
+    cases hy
+    simp [rtAnnOk, rtSeqsOk, rtSeqOk_canon _ segs hs]
+  · intro boxes y hb hy
+    rw [C10_roundtrip_annotation_bbox io eo hi he hm adjust ignore cast raiseTime r hte boxes hb] at hy
+    cases hy
+    simp [rtAnnOk, rtSeqsOk]
+
+-- non-vacuity: the hypotheses are satisfiable and the round trip is not the identity outside them
+example : roundtripSegment {} { kw := { valueOnly := some true } } true true ⟨8, 1, "rec.wav"⟩
+    ⟨"a", some (1/2), some (5/4), none, none⟩ = .ok ⟨"a", some (1/2), some (5/4), some 4, some 10⟩ := by decide +kernel
+example : roundtripSegment {} { kw := { valueOnly := some true } } true true ⟨8, 1, "rec.wav"⟩
+    ⟨"__empty__", none, none, some 4, some 10⟩ = .ok ⟨"__empty__", some (1/2), some (5/4), some 4, some 10⟩ := by
+  decide +kernel
+example : roundtripSegment {} { kw := { valueOnly := some true } } true true ⟨8, 2, "rec.wav"⟩
+    ⟨"a", some (1/2), some (5/4), none, none⟩ = .ok ⟨"a", some (1/4), some (5/8), some 2, some 5⟩ := by decide +kernel
+example : roundtripSegment {} {} true true ⟨8, 1, "rec.wav"⟩
+    ⟨"a", some (1/2), some (5/4), none, none⟩ = .ok ⟨"crowsetta:a", some (1/2), some (5/4), some 4, some 10⟩ := by
+  decide +kernel
+example : roundtripBBox {} { kw := { valueOnly := some true } } true true true ⟨8, 1, "rec.wav"⟩ ⟨1, 2, 1, 3, "a"⟩ =
+    .ok ⟨1, 2, 1, 3, "a"⟩ := by decide +kernel
+example : roundtripBBox {} { kw := { valueOnly := some true } } true true true ⟨8, 1, "rec.wav"⟩ ⟨1, 2, 1, 5, "a"⟩ =
+    .ok ⟨1, 2, 1, 4, "a"⟩ := by decide +kernel
+example : BoxInDomain ⟨8, 1, "rec.wav"⟩ ⟨1, 2, 1, 3, "a"⟩ := by constructor <;> decide +kernel
+example : SecondsValid ⟨"a", some (1/2), some (5/4), none, none⟩ := ⟨1/2, 5/4, rfl, rfl, by decide +kernel, by decide +kernel⟩
+
+/-! ## the defects of the pinned commit, as theorems about `Pinned.*`
+
+  `Pinned.labelToTags` / `Pinned.labelFromTags` are the cascades as they stand at the pinned commit.
+  They differ from the documented cascade (the model above, which the repaired code follows)
+  exactly on the three input classes of `fixes/C10-{1,2,3}-*.patch`. -/
+
+theorem termFromKey_inj (a b : String) : termFromKey a = termFromKey b ↔ a = b := by
+  constructor
+  · intro h; exact congrArg Term.label h
+  · rintro rfl; rfl
+
+/-- `label_to_tags` at the pinned commit deviates from the documented cascade iff no earlier rung
+    applies and either (defect 3) an explicit `term` hides a `tag_mapping` hit, or (defect 1) a
+    `key_mapping` *miss* discards the explicit `key` -/
+theorem C10_pinned_to_tags_differs_iff (o : LabelOpts) (label : String) :
+    Pinned.labelToTags o label ≠ labelToTags o label ↔
+      label ∉ o.emptyLabels ∧ fnRung o label = none ∧ hit o.termMapping label = none ∧
+        ((∃ t r, o.term = some t ∧ hit o.tagMapping label = some r ∧ r.toList ≠ [⟨t, label⟩]) ∨
+         (o.term = none ∧ hit o.tagMapping label = none ∧ o.keyMapping.isSome = true ∧
+            hit o.keyMapping label = none ∧ ∃ k, o.key = some k ∧ k ≠ o.fallback)) := by
+  unfold Pinned.labelToTags labelToTags
+  by_cases he : label ∈ o.emptyLabels
+  · simp [he]
+  · cases hfn : fnRung o label with
+    | some r => simp [he]
+    | none =>
+      cases ht : hit o.termMapping label with
+      | some t => simp [he]
+      | none =>
+        cases hterm : o.term with
+        | some t =>
+          cases hm : hit o.tagMapping label with
+          | none => simp [he]
+          | some r =>
+            simp only [he, if_false, Option.isNone_some, Bool.false_eq_true, false_and, Option.getD_some,
+              not_false_eq_true, true_and, ne_eq, Except.ok.injEq]
+            constructor
+            · intro h; exact Or.inl ⟨t, r, rfl, rfl, fun h' => h h'.symm⟩
+            · rintro (⟨t', r', ht', hr', hne⟩ | ⟨h', _⟩)
+              · cases ht'; cases hr'; exact fun h' => hne h'.symm
+              · cases h'
+        | none =>
+          cases hm : hit o.tagMapping label with
+          | some r => simp [he]
+          | none =>
+            cases hkm : o.keyMapping with
+            | none => simp [he, chooseKey, hit, hkm]
+            | some m =>
+              cases hk : hit o.keyMapping label with
+              | some k =>
+                have : hit (some m) label = some k := by rw [← hkm]; exact hk
+                simp [he, chooseKey, hkm, this]
+              | none =>
+                have hk' : hit (some m) label = none := by rw [← hkm]; exact hk
+                cases hkey : o.key with
+                | none => simp [he, chooseKey, hkm, hk', hkey]
+                | some k =>
+                  simp [he, chooseKey, hkm, hk', hkey, termFromKey_inj]
+                  exact ⟨fun h h' => h h'.symm, fun h h' => h h'.symm⟩
+
+/-- defect 2: `label_from_tags` at the pinned commit deviates iff a tag is selected by key while
+    `value_only` is among the keyword arguments (duplicate keyword: `TypeError`) -/
+theorem C10_pinned_from_tags_differs_iff (o : TagsOpts) (tags : List Tag) :
+    Pinned.labelFromTags o tags ≠ labelFromTags o tags ↔
+      o.seqLabelFn = none ∧ tags ≠ [] ∧ o.kw.valueOnly.isSome = true ∧
+        ∃ k t, o.selectByKey = some k ∧ tags.find? (fun t => keyFromTerm t.term == k) = some t ∧
+          labelFromTag { o.kw with valueOnly := some true } tagSep t ≠ .error .type := by
+  unfold Pinned.labelFromTags labelFromTags
+  cases hf : o.seqLabelFn with
+  | some f => simp
+  | none =>
+    by_cases hne : tags = []
+    · subst hne; simp
+    · have hemp : tags.isEmpty = false := by cases tags <;> simp_all
+      cases hk : o.selectByKey with
+      | none => simp
+      | some k =>
+        cases ht : tags.find? (fun t => keyFromTerm t.term == k) with
+        | none => simp [hemp, ht]
+        | some t =>
+          by_cases hv : o.kw.valueOnly.isSome = true
+          · simp only [hemp, Bool.false_eq_true, if_false, ht, hv, if_true, ne_eq, hne, not_false_eq_true, true_and,
+              Option.some.injEq, exists_and_left, exists_eq_left']
+            exact ⟨fun h h' => h h'.symm, fun h h' => h h'.symm⟩
+          · simp [hemp, ht, hv]
+
+-- the three Recon inputs: the pinned cascades deviate from the documented one
+example : Pinned.labelToTags { keyMapping := some [("other", "x")], key := some "explicit" } "lab" =
+    .ok [⟨termFromKey "crowsetta", "lab"⟩] := by decide
+example : Pinned.labelFromTags { selectByKey := some "k", kw := { valueOnly := some true } } [⟨termFromKey "k", "v"⟩] =
+    .error .type := by decide
+example : Pinned.labelToTags { term := some ⟨"L", "n:L", "d"⟩, tagMapping := some [("lab", .single ⟨termFromKey "k", "v"⟩)] } "lab" =
+    .ok [⟨⟨"L", "n:L", "d"⟩, "lab"⟩] := by decide
+
 end SE.Proofs.C10
